@@ -491,13 +491,14 @@ def c04_jobs(tier, seed):
                         continue
                     jobs.append({"pkg_short": "inject", "body": "VH_C04_invoke", "max_paths": 400000,
                                  "params": {"sig": sig, "scopes": scopes, "fast": fast, "impls": impls,
-                                            "maporders": 1 if impls else 0}})
+                                            "maporders": 1 if impls else 0, "rereg": 1 if (impls and fast == 0) or sig in ("0", "2,3") else 0}})
     jobs.append({"pkg_short": "inject", "body": "VH_C04_apply", "params": {"scopes": 2, "impls": "7"}, "max_paths": 400000})
+    jobs.append({"pkg_short": "flamego", "body": "VH_C04_request", "params": {}, "max_paths": 400000})
     return jobs
 
 
 SPECS["C04"] = Spec(
-    "C04", ["inject/c04.go"], c04_jobs,
+    "C04", ["inject/c04.go", "flamego/c13.go", "flamego/c04f.go", "route/parse.go"], c04_jobs,
     assumptions=[
         "real inject.New/Map/MapTo/Set/SetParent/Value/Invoke/fastInvoke/callInvoke/Apply/InterfaceOf/IsFastInvoker executed; reflect is the interpreter's shim answered from go/types (TypeOf, ValueOf, Kind, NumIn, In, Implements, Call, Field, Tag, CanSet, Set)",
         "type universe declared in the harness: struct, pointer, named string, named int, chan int (Set), interfaces I and J (J's method set includes I's), three implementors (value and pointer receivers)",
@@ -704,8 +705,8 @@ SPECS["C16"] = Spec(
 
 # --------------------------------------------------------------------------- C17
 def c17_jobs(tier, seed):
-    return [{"pkg_short": "flamego", "body": "VH_C17_render", "params": {"kind": k, "len": 3 if tier == "quick" else 5}, "max_paths": 200000}
-            for k in ("json", "xml", "binary", "text")]
+    return [{"pkg_short": "flamego", "body": "VH_C17_render", "params": {"kind": k, "len": 3 if tier == "quick" else 5, "prior": prior}, "max_paths": 200000}
+            for k in ("json", "xml", "binary", "text") for prior in (0, 1)]
 
 
 SPECS["C17"] = Spec(
